@@ -11,6 +11,7 @@ open VncModel.Gen.C03
 /-- what the oracle knows about a client -/
 structure OCtx where
   hist : History            -- every number the client has listed in any SetEncodings so far
+  cur : List Nat            -- the list of the client's LAST SetEncodings message ([] before the first)
   fbW : Nat                 -- framebuffer size last announced to this client
   fbH : Nat
   usedSetScale : Bool       -- the client has sent SetScale / PalmVNCSetScaleFactor
@@ -22,6 +23,17 @@ def isPseudoWithGeometryFree (e : Nat) : Bool :=
   e == rfbEncodingLastRect || e == rfbEncodingNewFBSize || e == rfbEncodingExtDesktopSize ||
   e == rfbEncodingKeyboardLedState || e == rfbEncodingSupportedMessages ||
   e == rfbEncodingSupportedEncodings || e == rfbEncodingServerIdentity
+
+/-- "advertised" for a pixel encoding: Raw, or named in the current list, or — the one documented
+exception — the sticky preferred encoding: the current list names no pixel encoding at all and the
+encoding was named by an earlier list (`lastPreferredEncoding` in the SetEncodings handler) -/
+def pixelAdvertised (o : OCtx) (e : Nat) : Bool :=
+  e == rfbEncodingRaw || o.cur.contains e ||
+  (!o.cur.any isPixelEncoding && advertised o.hist e)
+
+/-- "advertised" for everything else: named in the CURRENT list (flags are reset by every
+SetEncodings message) -/
+def advertisedNow (o : OCtx) (e : Nat) : Bool := o.cur.contains e
 
 /-- source position of a CopyRect rectangle -/
 def copySrc (r : Rect) : Option (Nat × Nat) :=
@@ -41,17 +53,17 @@ inductive RectFault where
 def rectFault (o : OCtx) (r : Rect) : Option RectFault :=
   let h := r.hdr
   if isPixelEncoding h.enc then
-    if h.enc ≠ rfbEncodingRaw ∧ !advertised o.hist h.enc then some (.unadvertised h.enc)
+    if !pixelAdvertised o h.enc then some (.unadvertised h.enc)
     else if h.x + h.w > o.fbW ∨ h.y + h.h > o.fbH then some (.outside h.x h.y h.w h.h)
     else none
   else if h.enc = rfbEncodingCopyRect then
-    if !advertised o.hist h.enc then some (.unadvertised h.enc)
+    if !advertisedNow o h.enc then some (.unadvertised h.enc)
     else if h.x + h.w > o.fbW ∨ h.y + h.h > o.fbH then some (.outside h.x h.y h.w h.h)
     else match copySrc r with
       | some (sx, sy) =>
         if sx + h.w > o.fbW ∨ sy + h.h > o.fbH then some (.copySrcOutside sx sy h.w h.h) else none
       | none => none
-  else if !advertised o.hist h.enc then some (.unadvertised h.enc)
+  else if !advertisedNow o h.enc then some (.unadvertised h.enc)
   else none
 
 inductive MsgFault where
@@ -72,11 +84,12 @@ def msgFaults (o : OCtx) : ServerMsg → List MsgFault
   | .colourMap .. => []
   | .bell => []
   | .cutText _ len _ =>
+    -- second documented exception: `enableExtendedClipboard` is never reset by SetEncodings
     if len ≥ 2147483648 ∧ !advertised o.hist rfbEncodingExtendedClipboard then [.msgType rfbServerCutText]
     else []
   | .resizeFB .. => if o.usedSetScale then [] else [.msgType rfbResizeFrameBuffer]
   | .palmResize .. => if o.usedSetScale then [] else [.msgType rfbPalmVNCReSizeFrameBuffer]
-  | .xvp .. => if advertised o.hist rfbEncodingXvp || o.usedXvp then [] else [.msgType rfbXvp]
+  | .xvp .. => if advertisedNow o rfbEncodingXvp || o.usedXvp then [] else [.msgType rfbXvp]
   | .textChat .. => []      -- application-initiated UltraVNC chat: no negotiation exists
 
 end VncModel.Wire
